@@ -330,6 +330,48 @@ fn run_history_lsp(spec: &WsSpec, ops: &[HOp], root: &Path) -> HRes {
         }
     }
     res.state_hash = map_snap(&live, root).hash();
+    // crash + restart: the index is volatile, the durable state is the files on disk plus the buffers
+    // the client re-opens.  With every open buffer parsable, the restarted server must answer like the
+    // one that lived through the history.
+    let mut latest: BTreeMap<String, String> = BTreeMap::new();
+    for (f, t) in log.iter().skip(scan_len) {
+        latest.insert(f.clone(), t.clone());
+    }
+    if res.violations.is_empty() && !latest.is_empty() && latest.values().all(|t| parses(t)) {
+        let before = map_snap(&live, root);
+        let files = super::dbsnap::files_in_cache(&live);
+        let sa = super::observe::snapshot_files(&live, root, &files, false, false);
+        drop(srv);
+        let mut srv2 = super::lspdrv::LspServer::start(root);
+        let id = srv2.initialize();
+        let ok = srv2.await_response(id, 300).is_some();
+        srv2.notify("initialized", serde_json::json!({}));
+        srv2.steps(3);
+        srv2.join_scan();
+        if !ok || !srv2.settle(3, 3000) || !srv2.scan_complete_seen() {
+            res.violate("history-server-failure", format!("restarted server did not come up: {:?}", srv2.server_panic));
+            return res;
+        }
+        let mut v = 1;
+        for (f, t) in &latest {
+            v += 1;
+            srv2.did_open(f, t, v);
+        }
+        if !srv2.settle(3, 6000) {
+            res.violate("history-server-failure", format!("restarted server not quiescent: {:?}", srv2.server_panic));
+            return res;
+        }
+        res.count("fault.crash_restart_with_buffers_reopened");
+        let after = map_snap(&srv2.db, root);
+        if let Some(d) = before.diff(&after, false) {
+            res.violate("restart-changes-index", format!("after crash + restart with the same buffers re-opened the index differs: {}", d));
+        } else {
+            let sb = super::observe::snapshot_files(&srv2.db, root, &files, false, false);
+            if let Some((k, x, y)) = sa.first_diff(&sb) {
+                res.violate("restart-changes-answers", format!("after crash + restart `{}` answers {:?}, before the crash {:?}", k, y, x));
+            }
+        }
+    }
     res
 }
 
